@@ -141,7 +141,7 @@ func goroutineStates() map[int64]string {
 
 type schedThread struct {
 	idx     int
-	kind    byte // 'W' writer, 'C' CleanUp caller, 'T' maintenance task
+	kind    byte // 'W' writer, 'C' CleanUp caller, 'T' maintenance task, 'R' reader, 'X' SetMaximum, 'G' GetMaximum, 'I' InvalidateAll
 	goid    int64
 	release chan struct{}
 	state   byte // 'R' running, 'P' parked at hook, 'B' blocked on the eviction lock, 'D' done
@@ -355,6 +355,13 @@ func runSched(seed uint64, scale int, out string, _ string) *summary {
 		if sc%7 == 0 {
 			maxW, maxC = 2, 0
 		}
+		// other holders of the eviction lock: X = SetMaximum (the CleanUp caller's program), G = GetMaximum
+		// (maintenance only when the status is "required"), I = InvalidateAll (its own drain of the write buffer)
+		maxX, maxG, maxI := 0, 0, 0
+		if sc >= len(scripts) && sc%3 == 1 {
+			maxX, maxG, maxI = sr.intn(2), sr.intn(3), sr.intn(2)
+		}
+		nX, nG, nI := 0, 0, 0
 		var fixed []string
 		if sc < len(scripts) {
 			fixed = scripts[sc]
@@ -423,8 +430,11 @@ func runSched(seed uint64, scale int, out string, _ string) *summary {
 			ctl.mu.Unlock()
 			canW := nW < maxW && steps < budget
 			canC := nC < maxC && steps < budget
-			canR := nR < maxR && steps < budget
-			if len(parked) == 0 && !canW && !canC && !canR {
+			canR := nR < maxR && steps < budget && nI == 0 // InvalidateAll removes the entry the readers hit
+			canX := nX < maxX && steps < budget
+			canG := nG < maxG && steps < budget
+			canI := nI < maxI && steps < budget
+			if len(parked) == 0 && !canW && !canC && !canR && !canX && !canG && !canI {
 				if !allDone {
 					sum.fail("C14", "sched-deadlock", "threads remain that are neither finished nor resumable: the protocol is stuck",
 						fmt.Sprintf("%s script=%s state=%s", desc, strings.Join(script, " "), ctl.observe()))
@@ -469,6 +479,15 @@ func runSched(seed uint64, scale int, out string, _ string) *summary {
 				if canR {
 					kinds = append(kinds, "R")
 				}
+				if canX {
+					kinds = append(kinds, "X")
+				}
+				if canG {
+					kinds = append(kinds, "G")
+				}
+				if canI {
+					kinds = append(kinds, "I")
+				}
 				if sticky >= 0 && sr.chance(60) {
 					for _, p := range parked {
 						if p == sticky {
@@ -511,6 +530,27 @@ func runSched(seed uint64, scale int, out string, _ string) *summary {
 					go func() {
 						ctl.bind(th)
 						c.GetIfPresent(0) // a hit: afterRead -> shouldDrainBuffers -> possibly scheduleDrainBuffers
+						ctl.ev <- schedEvent{th.idx, 'F', 0}
+					}()
+				} else if kind == 'X' {
+					nX++
+					go func() {
+						ctl.bind(th)
+						c.SetMaximum(64)
+						ctl.ev <- schedEvent{th.idx, 'F', 0}
+					}()
+				} else if kind == 'G' {
+					nG++
+					go func() {
+						ctl.bind(th)
+						c.GetMaximum()
+						ctl.ev <- schedEvent{th.idx, 'F', 0}
+					}()
+				} else if kind == 'I' {
+					nI++
+					go func() {
+						ctl.bind(th)
+						c.InvalidateAll()
 						ctl.ev <- schedEvent{th.idx, 'F', 0}
 					}()
 				} else {
